@@ -17,8 +17,8 @@ import core
 from core import Fraction, frac, rat
 
 RULE = ("case = (constructor se3|pos+quat, with/without stamps, poses, operation history); exact-grid stream: every history "
-        "over a fixed alphabet (21 symbols: left/right/propagating SE(3), Sim(3) left/right/propagating, scale, reduce, downsample, "
-        "motion filter, crop, align, align_origin, project, copy, reads of each view, check, reduce with repeated indices, reduce with a same-length permutation) up to depth 2 (quick) / 3 (thorough) plus "
+        "over a fixed alphabet (22 symbols: left/right/propagating SE(3), Sim(3) left/right/propagating, scale, reduce, downsample, "
+        "motion filter, crop, align, align_origin, project, copy, reads of each view, check, reduce with repeated indices, reduce with a same-length permutation, reduce with negative indices) up to depth 2 (quick) / 3 (thorough) plus "
         "depth 4 over the cache-relevant sub-alphabet (12 symbols), on 3-pose trajectories with 90-degree rotations and dyadic coordinates; "
         "long exact-grid stream: histories of length <= 12 on up to 200 poses (incl. propagation); random stream: histories of length <= 15 "
         "on 1..200 poses, epoch stamps, UTM-sized offsets, scales 1e-3..1e3 (propagating transforms only on <= 40 poses there: exact "
@@ -126,6 +126,17 @@ def red_ids(op, n):
         return ids
     if how == "empty":
         return []
+    # signed indices, Python semantics: -1 = last, -n = first, mixed with non-negative ones
+    if how == "neg":
+        return [0, -1]
+    if how == "negmix":
+        return [(i if rr.random() < 0.5 else i - n) for i in range(n) if rr.random() < 0.8] or [-1]
+    if how == "negall":
+        return list(range(-n, 0))
+    if how == "negout":          # one index below -n: numpy raises IndexError, nothing may change
+        return [0, -n - 1]
+    if how == "posout":
+        return [0, n]
     raise ValueError(how)
 
 
@@ -189,7 +200,7 @@ def grid_alphabet(r):
         {"op": "al", "mode": "s", "ref_seed": 5, "grid": True, "n": -1}, {"op": "ao", "ref": ref},
         {"op": "pj", "plane": "xy"}, {"op": "cp"},
         {"op": "rd", "v": "pos"}, {"op": "rd", "v": "quat"}, {"op": "rd", "v": "se3"}, {"op": "chk"},
-        {"op": "red", "how": "rep"}, {"op": "red", "how": "rev"},
+        {"op": "red", "how": "rep"}, {"op": "red", "how": "rev"}, {"op": "red", "how": "neg"},
     ]
     core_ = [full[i] for i in (0, 2, 3, 6, 7, 9, 11, 13, 15, 16, 17, 19)]
     return full, core_
@@ -269,7 +280,7 @@ def rand_ops(r, n, timed, length):
             if r.random() < 0.5:
                 ops.append({"op": "red", "sel": sorted(r.random() for _ in range(r.randint(1, 12)))})
             else:
-                ops.append({"op": "red", "how": r.choice(["rev", "rot", "rep", "samerep", "shuf", "shuf", "empty"]) if r.random() < 0.9
+                ops.append({"op": "red", "how": r.choice(["rev", "rot", "rep", "samerep", "shuf", "shuf", "neg", "negmix", "negmix", "negall", "negout", "posout"]) if r.random() < 0.92
                             else "empty", "seed": r.randint(0, 10 ** 6)})
         elif k < 0.63:
             ops.append({"op": "ds", "n": r.choice([1, 2, 3, 5, 17, 100, 0])})
@@ -309,7 +320,7 @@ def gen_cases(ctx):
                 yield dict(b, ops=hist, corpus=True)
     # index lists with repeats / same-length permutations, matrix objects shared inside the pose list
     for timed in (False, True):
-        for how in ("rep", "rev", "samerep", "rot", "shuf"):
+        for how in ("rep", "rev", "samerep", "rot", "shuf", "neg", "negmix", "negall", "negout", "posout"):
             for tail in ([{"op": "sc", "s": 2.0}], [{"op": "tf", "mode": "L", "T": full[0]["T"]}], [{"op": "pj", "plane": "xy"}],
                          [{"op": "rd", "v": "pos"}, {"op": "sc", "s": 2.0}]):
                 for ctor in ("se3", "pq"):
@@ -335,7 +346,7 @@ def gen_cases(ctx):
             # constructor and stamps chosen at random per history (every depth-4 history once)
             yield dict(grid_base(r, r.random() < 0.5, r.choice(["se3", "pq"])), ops=list(hist), exhaustive=4)
     else:
-        for _ in range(1500):
+        for _ in range(1000):
             d = r.choice([3, 3, 4])
             timed = r.random() < 0.5
             hist = [r.choice(full) for _ in range(d)]
@@ -506,8 +517,15 @@ def run_impl(case):
             elif k == "red":
                 ids = red_ids(op, n)
                 info["ids"] = ids
-                tok = f"red {core.natlist(ids)}"
-                obj.reduce_to_ids(ids)
+                if any(i < 0 for i in ids) or any(i >= n for i in ids):
+                    tok = f"redi {len(ids)} " + " ".join(str(i) for i in ids)     # signed indices: normalised by the model (normIds)
+                    tok = tok.strip()
+                else:
+                    tok = f"red {core.natlist(ids)}"
+                try:
+                    obj.reduce_to_ids(ids)
+                except IndexError:
+                    out = "E_TRAJ"      # the model's refusal; numpy's IndexError on the real object
             elif k == "ds":
                 N = op["n"]
                 ids = [int(i) for i in np.linspace(0, n - 1, N, dtype=int)] if (n > N >= 1) else []
